@@ -354,6 +354,7 @@ class WsgiApplication(HttpBase):
         if self.doc.wsdl11 is None:
             start_response(HTTP_404,
                                   _gen_http_headers(ctx.transport.resp_headers))
+            ctx.close()
             return [HTTP_404.encode("ascii")]
 
         if self._wsdl is None:
@@ -380,6 +381,8 @@ class WsgiApplication(HttpBase):
 
                 start_response(HTTP_500,
                                   _gen_http_headers(ctx.transport.resp_headers))
+
+                ctx.close()
 
                 return [HTTP_500.encode("ascii")]
 
